@@ -341,7 +341,7 @@ func ruleC09For(p *Prog, a *Anchors, r *Report) {
 	// the item callback stops the iteration on error
 	stops := false
 	for _, ret := range returnsOf(item) {
-		if b, isC := constBool(ret.Results[0]); isC && !b {
+		if b, isC := constBool(res(ret, 0)); isC && !b {
 			stops = true
 		}
 	}
